@@ -110,7 +110,19 @@ def file_level(ctx, cases, counts):
             with TdmsWriter(buf) as w:
                 w.write_segment([ChannelObject("g", "c", np.array([raw, raw], dtype=np.float64), P)])
             buf.seek(0)
-            got = float(TdmsFile.read(buf)["g"]["c"][:][1])
+            che = TdmsFile.read(buf)["g"]["c"]
+            raw_before = che.raw_data.tobytes()
+            first = np.array(che[:], dtype=np.float64)
+            got = float(first[1])
+            # the same eagerly read channel again: a window, the full data, iteration — and the raw data as it was
+            again = [("read_data(0, 2)", np.asarray(che.read_data(0, 2), dtype=np.float64), first[:2]), ("[:] again", np.asarray(che[:], dtype=np.float64), first),
+                     ("[1]", np.array([che[1]], dtype=np.float64), first[1:2])]
+            for label2, g2, e2 in again:
+                if g2.shape != e2.shape or not np.array_equal(g2, e2, equal_nan=True):
+                    out.append(Violation("%s scale (%s wiring): %s on the eagerly read channel gives %r after the first read gave %r" % (kind, wiring, label2, list(g2), list(e2)), rp))
+                    break
+            if che.raw_data.tobytes() != raw_before:
+                out.append(Violation("%s scale (%s wiring): reading the scaled data changed the channel's raw data" % (kind, wiring), rp))
             buf.seek(0)
             with TdmsFile.open(buf) as f:
                 lazy = float(f["g"]["c"][1])
